@@ -25,6 +25,7 @@ META = {
     "assumptions": ["the base tracker's update/get are decided by C10"],
 }
 META["explanation"] += ' Also COPY (a copied multi-value tracker owns its per-key trackers and key set).'
+META["explanation"] += ' Round 5: a base tracker kept inside a constructor-held partial is followed as a component of the state; deferred registration of new keys is not decided. HAZARD: constructs that do not mean what they look like, met in the analysed code (defaults evaluated once, class-level containers changed through self, dict.fromkeys with a shared mutable value, late-binding lambdas, truth value of objects that define __len__) are reported by every check.'
 MIN_INSTANCES = {"TYPESTATE": 4, "FORMULA": 3, "ZERODIV": 1, "NOMUT": 1, "COPY": 1}
 CLS = "MultiValueTracker"
 REMOVERS = {"pop", "popitem", "remove", "discard", "clear", "difference_update", "intersection_update",
